@@ -65,13 +65,22 @@ func checkDigraph(n int, adj [][]int) string {
 	var ok bool
 	var path []int
 	var pan interface{}
+	// a logical budget instead of a clock: a search that remembers what it has visited asks for the successors
+	// of each node once; 100*n*n+1000 look-ups is far beyond any reasonable algorithm and still cheap to reach
+	budget := 100*n*n + 1000
+	var steps int
+	var exceeded bool
 	func() {
 		defer func() { pan = recover() }()
-		ok, path = dig.VerifIsAcyclic(n, adj)
+		ok, path, steps, exceeded = dig.VerifIsAcyclicSteps(n, adj, budget)
 	}()
 	if pan != nil {
 		return fmt.Sprintf("cycle search panicked: %v", pan)
 	}
+	if exceeded {
+		return fmt.Sprintf("cycle search on %d nodes did not finish within %d successor look-ups (it does not terminate, or it is exponential)", n, budget)
+	}
+	_ = steps
 	want := kahnAcyclic(n, adj)
 	if ok != want {
 		return fmt.Sprintf("cycle search says acyclic=%v, reference says %v", ok, want)
@@ -146,17 +155,48 @@ func checkGraphCase(g *GraphCase) *CaseResult {
 				n = 5 + r.Intn(4)
 			}
 			adj := make([][]int, n)
-			density := r.Float64() * 0.5
-			for u := 0; u < n; u++ {
-				for v := 0; v < n; v++ {
-					if r.Float64() < density {
-						adj[u] = append(adj[u], v)
-						if r.Intn(10) == 0 {
-							adj[u] = append(adj[u], v) // parallel edge
+			if g.N == 0 && i%8 == 7 {
+				// a LARGE graph (65-260 nodes: more than one machine word of nodes): a sparse DAG over a random
+				// order, or a layered DAG in which every node of a layer needs every node of the next one (cheap
+				// with a visited set, exponential without), in half of the cases with one back edge between
+				// late nodes
+				n = 65 + r.Intn(196)
+				adj = make([][]int, n)
+				res.Stats["graph.large"]++
+				if r.Intn(3) == 0 {
+					w := 2 + r.Intn(2)
+					for u := 0; u+w < n; u++ {
+						base := (u/w + 1) * w
+						for v := base; v < base+w && v < n; v++ {
+							adj[u] = append(adj[u], v)
+						}
+					}
+				} else {
+					for u := 1; u < n; u++ {
+						for k := r.Intn(3); k > 0; k-- {
+							adj[u] = append(adj[u], r.Intn(u))
 						}
 					}
 				}
-				r.Shuffle(len(adj[u]), func(a, b int) { adj[u][a], adj[u][b] = adj[u][b], adj[u][a] })
+				if r.Intn(2) == 0 {
+					a := 64 + r.Intn(n-64)
+					b := 64 + r.Intn(n-64)
+					adj[a] = append(adj[a], b)
+					adj[b] = append(adj[b], a)
+				}
+			} else {
+				density := r.Float64() * 0.5
+				for u := 0; u < n; u++ {
+					for v := 0; v < n; v++ {
+						if r.Float64() < density {
+							adj[u] = append(adj[u], v)
+							if r.Intn(10) == 0 {
+								adj[u] = append(adj[u], v) // parallel edge
+							}
+						}
+					}
+					r.Shuffle(len(adj[u]), func(a, b int) { adj[u][a], adj[u][b] = adj[u][b], adj[u][a] })
+				}
 			}
 			res.Stats["graph.checked"]++
 			if kahnAcyclic(n, adj) {
